@@ -1,0 +1,7 @@
+//go:build verif
+
+package namespace
+
+// Assumed contract of the Namespace interface (comment-only file, read by /verif/engine): a lookup reads the
+// namespace and changes nothing.
+//@ extern (Namespace) Get
